@@ -100,6 +100,22 @@ static std::vector<Whole> c10_wholes() {
         bytes spk = ref::unhex("a914"); bytes h = ref::hash160(redeem); spk.insert(spk.end(), h.begin(), h.end()); spk.push_back(0x87);
         W.push_back({"P2SH: scriptSig <redeem>, redeem nop*" + std::to_string(k3) + " 1", ref::SigVer::BASE, ref::F_P2SH, sig, spk, {}});
     }
+    // the 520-byte element limit applies to every push the interpreter reads, executed or not (the limit check precedes the
+    // fExec test); a scriptPubKey reaches the interpreter without the parse-time screen applied to command-line scripts
+    for (size_t n : {519, 520, 521, 522}) {
+        bytes push = ref::push_raw(alpha::filler(n));
+        auto cat = [&](std::initializer_list<bytes> parts) { bytes r; for (auto& p : parts) r.insert(r.end(), p.begin(), p.end()); return r; };
+        std::string N = std::to_string(n);
+        W.push_back({"scriptPubKey: executed push of " + N + " bytes", ref::SigVer::BASE, 0, ref::unhex("51"), cat({push, ref::unhex("7551")}), {}});
+        W.push_back({"scriptPubKey: push of " + N + " bytes in an unexecuted IF branch", ref::SigVer::BASE, 0, ref::unhex("00"), cat({ref::unhex("63"), push, ref::unhex("6851")}), {}});
+        W.push_back({"scriptPubKey: push of " + N + " bytes in the skipped ELSE branch", ref::SigVer::BASE, 0, ref::unhex("51"), cat({ref::unhex("6351"), ref::unhex("67"), push, ref::unhex("68")}), {}});
+        W.push_back({"scriptPubKey: push of " + N + " bytes nested under a false outer branch", ref::SigVer::BASE, 0, ref::unhex("00"), cat({ref::unhex("6351"), ref::unhex("63"), push, ref::unhex("6868"), ref::unhex("51")}), {}});
+        bytes redeem = cat({ref::unhex("0063"), push, ref::unhex("6851")});
+        if (redeem.size() <= 520) {   // a redeem script is itself a stack element
+            bytes spk = ref::unhex("a914"); bytes h = ref::hash160(redeem); spk.insert(spk.end(), h.begin(), h.end()); spk.push_back(0x87);
+            W.push_back({"P2SH redeem script with a push of " + N + " bytes in an unexecuted branch", ref::SigVer::BASE, ref::F_P2SH, ref::push_raw(redeem), spk, {}});
+        }
+    }
     return W;
 }
 
@@ -225,7 +241,7 @@ static void run_ext(const ExtCase& e, Violations& V, std::map<std::string, long 
 static bool impl_num(const bytes& v, bool req_min, size_t maxlen, int64_t& out) {
     try { CScriptNum n(v, req_min, maxlen); out = n.GetInt64(); return true; } catch (const scriptnum_error&) { return false; }
 }
-struct NumStats { long long strings = 0, minimal = 0, ints = 0; };
+struct NumStats { long long strings = 0, minimal = 0, ints = 0, locktime_operands = 0; };
 static void check_string(const bytes& v, size_t maxlen, Violations& V, NumStats& st) {
     st.strings++;
     int64_t want = ref::num_decode(v);
@@ -377,18 +393,31 @@ int main(int argc, char** argv) {
             if (full4) { bytes s(4); s[3] = top; for (int b0 = 0; b0 < 256; b0++) for (int b1 = 0; b1 < 256; b1++) for (int b2 = 0; b2 < 256; b2++) { s[0] = b0; s[1] = b1; s[2] = b2; check_string(s, 4, v, st); } }
             else for (uint8_t x : five) for (uint8_t y : five) for (uint8_t z : five) check_string({x, y, z, top}, 4, v, st);
             for (uint8_t x : five) for (uint8_t y : five) for (uint8_t z : five) for (uint8_t w : five) { check_string({x, y, z, w, top}, 5, v, st); }
+            // lock-time operands: the same strings of length 0..5 as the operand of CLTV / CSV through the interpreter (no transaction:
+            // the outcome distinguishes overflow / negative / disabled-by-bit-31 / decoded-and-compared), with and without MINIMALDATA
+            {
+                std::vector<bytes> ops5; ops5.push_back({top});
+                for (uint8_t x : five) { ops5.push_back({x, top}); for (uint8_t y : five) { ops5.push_back({x, y, top}); for (uint8_t z : five) { ops5.push_back({x, y, z, top}); for (uint8_t w : five) ops5.push_back({x, y, z, w, top}); } } }
+                if (idx == 0) { ops5.push_back({}); ops5.push_back({1, 2, 3, 4, 5, 6}); }
+                for (auto& operand : ops5) for (uint8_t opc : {uint8_t(0xb1), uint8_t(0xb2)}) for (uint32_t fl : {ref::F_CLTV | ref::F_CSV, ref::F_CLTV | ref::F_CSV | ref::F_MINIMALDATA}) {
+                    Violations lv; Stats ls; Cfg c{ref::SigVer::BASE, fl, {operand}};
+                    compare_script(c, bytes{opc, 0x75, 0x51}, lv, ls);
+                    st.locktime_operands++;
+                    for (auto& kv : lv.by_key) v.add("c18:locktime-operand:len=" + std::to_string(operand.size()) + ":" + kv.first, kv.second.first.what, J::raw(kv.second.first.replay_json));
+                }
+            }
             // over-long strings are rejected at either setting
             { int64_t d; bytes s5{1, 2, 3, 4, top}; if (impl_num(s5, false, 4, d)) v.add("c18:length-limit", "a 5-byte string is accepted with a 4-byte limit", JObj().put("engine", "mc_bounds").put("mode", "c18").put("string", ref::hex(s5)).put("maxlen", 4).j()); bytes s6{1, 2, 3, 4, 5, top}; if (impl_num(s6, false, 5, d)) v.add("c18:length-limit", "a 6-byte string is accepted with a 5-byte limit", JObj().put("engine", "mc_bounds").put("mode", "c18").put("string", ref::hex(s6)).put("maxlen", 5).j()); }
             // integers: [-2^16, 2^16] split over the chunks, and around every +-2^k
             for (int64_t n = -65536 + int64_t(idx) * 512; n < -65536 + int64_t(idx + 1) * 512 + (idx == 255 ? 1 : 0); n++) check_int(n, v, st);
             if (idx < 64) { int k = int(idx); for (int d = -3; d <= 3; d++) { if (k < 63) { int64_t p = (int64_t(1) << k); check_int(p + d, v, st); check_int(-p + d, v, st); } } }
             if (idx == 64) { check_int(INT64_MAX, v, st); check_int(INT64_MAX - 1, v, st); check_int(INT64_MIN + 1, v, st); check_int(INT64_MIN, v, st); }
-            v.dump(o); fprintf(o, "N\t%lld\t%lld\t%lld\n", st.strings, st.minimal, st.ints);
+            v.dump(o); fprintf(o, "N\t%lld\t%lld\t%lld\t%lld\n", st.strings, st.minimal, st.ints, st.locktime_operands);
         };
         parallel_for(chunks, default_workers(), tmp, "c18", work,
             [&](size_t i, int stt, const std::string& nt) { V.add("c18:crash:" + crash_desc(stt), "worker died (" + crash_desc(stt) + ") in chunk " + std::to_string(i), J::raw(nt.empty() ? "{}" : nt)); },
-            [&](const std::string& l) { if (l.empty()) return; if (l[0] == 'V') V.merge_line(l); else if (l[0] == 'N') { long long x, y, z; sscanf(l.c_str() + 2, "%lld\t%lld\t%lld", &x, &y, &z); T.strings += x; T.minimal += y; T.ints += z; } });
-        res.put("strings", T.strings).put("minimal_strings", T.minimal).put("integers", T.ints).put("full_4_byte_space", full4);
+            [&](const std::string& l) { if (l.empty()) return; if (l[0] == 'V') V.merge_line(l); else if (l[0] == 'N') { long long x, y, z, w = 0; sscanf(l.c_str() + 2, "%lld\t%lld\t%lld\t%lld", &x, &y, &z, &w); T.strings += x; T.minimal += y; T.ints += z; T.locktime_operands += w; } });
+        res.put("strings", T.strings).put("minimal_strings", T.minimal).put("integers", T.ints).put("locktime_operand_sessions", T.locktime_operands).put("full_4_byte_space", full4);
         res.put("samples", J::strs({"80 -> 0, non-minimal", "ff00 -> 255, minimal", "ffffff7f -> 2147483647, minimal", "-128 -> 8080"}));
     }
     rm_rf(tmp);
